@@ -6,7 +6,61 @@ mod engines;
 #[cfg(feature = "hooks")]
 mod errmap;
 mod gen;
+#[cfg(feature = "hooks")]
+mod synth;
 mod util;
+
+/// Counting global allocator: live and peak heap bytes, for the memory-bound oracles (C05, C11).
+pub mod alloc_count {
+    use std::alloc::{GlobalAlloc, Layout, System};
+    use std::sync::atomic::{AtomicUsize, Ordering};
+    pub static LIVE: AtomicUsize = AtomicUsize::new(0);
+    pub static PEAK: AtomicUsize = AtomicUsize::new(0);
+    pub static BIGGEST: AtomicUsize = AtomicUsize::new(0);
+    pub struct Counting;
+    unsafe impl GlobalAlloc for Counting {
+        unsafe fn alloc(&self, l: Layout) -> *mut u8 {
+            let p = System.alloc(l);
+            if !p.is_null() {
+                let live = LIVE.fetch_add(l.size(), Ordering::Relaxed) + l.size();
+                PEAK.fetch_max(live, Ordering::Relaxed);
+                BIGGEST.fetch_max(l.size(), Ordering::Relaxed);
+            }
+            p
+        }
+        unsafe fn dealloc(&self, p: *mut u8, l: Layout) {
+            LIVE.fetch_sub(l.size(), Ordering::Relaxed);
+            System.dealloc(p, l)
+        }
+        unsafe fn realloc(&self, p: *mut u8, l: Layout, new: usize) -> *mut u8 {
+            let q = System.realloc(p, l, new);
+            if !q.is_null() {
+                if new >= l.size() {
+                    let live = LIVE.fetch_add(new - l.size(), Ordering::Relaxed) + (new - l.size());
+                    PEAK.fetch_max(live, Ordering::Relaxed);
+                    BIGGEST.fetch_max(new, Ordering::Relaxed);
+                } else {
+                    LIVE.fetch_sub(l.size() - new, Ordering::Relaxed);
+                }
+            }
+            q
+        }
+    }
+    /// start a measurement window: returns the live byte count now and resets peak/biggest to it
+    pub fn start() -> usize {
+        let live = LIVE.load(Ordering::Relaxed);
+        PEAK.store(live, Ordering::Relaxed);
+        BIGGEST.store(0, Ordering::Relaxed);
+        live
+    }
+    /// (peak live bytes above the baseline, biggest single allocation) since `start`
+    pub fn stop(base: usize) -> (usize, usize) {
+        (PEAK.load(Ordering::Relaxed).saturating_sub(base), BIGGEST.load(Ordering::Relaxed))
+    }
+}
+
+#[global_allocator]
+static GLOBAL: alloc_count::Counting = alloc_count::Counting;
 
 fn main() {
     let args: Vec<String> = std::env::args().collect();
@@ -55,4 +109,6 @@ fn main() {
     };
     run.write(&opts.out).expect("write outputs");
     println!("{} cases={} oracle_checks={} oracle_failures={}", run.engine, run.cases.len(), run.oracle_checks, run.oracle_failures.len());
+    // leaked watchdog threads (hung cases) must not keep the process alive
+    std::process::exit(0);
 }
